@@ -1117,6 +1117,58 @@ func concShowSeq(seq []glyph.Info) string {
 
 var concLangs = []language.Tag{language.AmericanEnglish, language.German, language.French, language.Und, language.Japanese}
 
+// concOrderFree: fonts for which Subset's glyph order is not a function of its arguments (the
+// GSUB closure and the closure over composite components both iterate over Go maps).
+func concOrderFree(f *sfnt.Font) bool {
+	if f.Gsub != nil {
+		return true
+	}
+	if o, ok := f.Outlines.(*glyf.Outlines); ok {
+		for _, g := range o.Glyphs {
+			if g != nil {
+				if _, ok := g.Data.(glyf.CompositeGlyph); ok {
+					return true
+				}
+			}
+		}
+	}
+	return false
+}
+
+// concSubsetCanon describes a subset font independently of the order of its glyphs: the number of
+// glyphs and the multiset of glyph payloads (outline, width, name).
+func concSubsetCanon(sub *sfnt.Font) string {
+	var hs []uint64
+	switch o := sub.Outlines.(type) {
+	case *cff.Outlines:
+		for _, g := range o.Glyphs {
+			hs = append(hs, deepHash(g))
+		}
+	case *glyf.Outlines:
+		for i, g := range o.Glyphs {
+			h := deepHash(g)
+			if g != nil {
+				if c, ok := g.Data.(glyf.CompositeGlyph); ok { // component ids depend on the order
+					h = mix(deepHash(g.Rect16), uint64(len(c.Components)))
+				}
+			}
+			if i < len(o.Widths) {
+				h = mix(h, uint64(o.Widths[i]))
+			}
+			if i < len(o.Names) {
+				h = mix(h, hashString(o.Names[i]))
+			}
+			hs = append(hs, h)
+		}
+	}
+	sort.Slice(hs, func(i, j int) bool { return hs[i] < hs[j] })
+	var x uint64 = 99
+	for _, h := range hs {
+		x = mix(x, h)
+	}
+	return fmt.Sprintf("ng=%d,content=%x,gsub=%v,gpos=%v", sub.NumGlyphs(), x, sub.Gsub != nil, sub.Gpos != nil)
+}
+
 // concSubsetGlyphs draws the glyph list of the subset op (also used by the generator to pick
 // arguments whose list has a wanted shape).
 func concSubsetGlyphs(n int, r *concRng) []glyph.ID {
@@ -1177,6 +1229,12 @@ var concOps = []concOp{
 		glyphs := concSubsetGlyphs(f.NumGlyphs(), r)
 		sub := f.Subset(glyphs)
 		// the subset itself, then its written form (writing some subsets panics: reported, not fatal)
+		if concOrderFree(f) {
+			// Subset appends the glyphs its GSUB / composite closure adds in Go map-iteration order: two calls
+			// with the same arguments may number those glyphs differently (C10's order oracle).  The
+			// result compared here is therefore the order-insensitive content of the subset.
+			return concSubsetCanon(sub)
+		}
 		res := fmt.Sprintf("ng=%d,h=%x,", sub.NumGlyphs(), deepHash(sub.Gsub)^deepHash(sub.Gpos)^deepHash(sub.CMapTable))
 		return res + guard(func() string {
 			var buf bytes.Buffer
@@ -1228,12 +1286,15 @@ var concOps = []concOp{
 	}},
 	{"subsetreuse", "", func(f *sfnt.Font, r *concRng) string {
 		// a worker makes several subsets of the shared font RE-USING ITS OWN glyph buffer between
-		// the calls, and writes them only afterwards; each must equal the subset made from a fresh
-		// slice and written at once
+		// the calls.  Each subset is written right after it was made (snapshot); after the buffer
+		// has been refilled for the next subsets and finally wiped, writing the SAME subset again
+		// must give the snapshot: a returned subset does not depend on the caller's buffer.
+		// (Only one Subset call per subset: two calls may legitimately number closure glyphs
+		// differently, see concSubsetCanon.)
 		n := f.NumGlyphs()
 		buf := make([]glyph.ID, 0, 64)
 		var subs []*sfnt.Font
-		var want []string
+		var snap []string
 		write := func(x *sfnt.Font) string {
 			return guard(func() string {
 				var b bytes.Buffer
@@ -1256,25 +1317,28 @@ var concOps = []concOp{
 				}
 			}
 			sort.Slice(buf, func(a, b int) bool { return buf[a] < buf[b] })
-			fresh := append([]glyph.ID(nil), buf...)
-			res := guard(func() string { want = append(want, write(f.Subset(fresh))); return "" })
-			if res != "" {
+			var sub *sfnt.Font
+			if res := guard(func() string { sub = f.Subset(buf); return "" }); res != "" {
 				return res // Subset panics on this font ("not implemented"): same outcome every time
 			}
-			subs = append(subs, f.Subset(buf))
+			subs = append(subs, sub)
+			snap = append(snap, write(sub))
 		}
-		for i := range buf {
-			buf[i] = 0 // and finally the buffer is wiped
+		full := buf[:cap(buf)]
+		for i := range full {
+			full[i] = 0 // and finally the buffer is wiped
 		}
-		var out []string
+		ng := 0
 		for i, x := range subs {
-			got := write(x)
-			if got != want[i] {
-				return fmt.Sprintf("notalone:subset=%d,reused-buffer=%s,fresh-slice=%s", i, got, want[i])
+			if got := write(x); got != snap[i] {
+				return fmt.Sprintf("notalone:subset=%d,written-after-buffer-reuse=%s,written-at-once=%s", i, got, snap[i])
 			}
-			out = append(out, got)
+			ng += x.NumGlyphs()
 		}
-		return concShort(strings.Join(out, ";"))
+		if concOrderFree(f) {
+			return fmt.Sprintf("ok,subsets=%d,glyphs=%d", len(subs), ng) // bytes depend on the closure order
+		}
+		return concShort(strings.Join(snap, ";"))
 	}},
 	{"pdfmetrics", "", func(f *sfnt.Font, r *concRng) string {
 		// GlyphWidthPDF and GlyphBBoxPDF of EVERY glyph, many times over, in an order that keeps
